@@ -11,17 +11,84 @@ import (
 	"github.com/google/jsonschema-go/jsonschema"
 )
 
+type inferOpts struct {
+	Ignore      bool `json:"ignore"`
+	TypeSchemas []struct {
+		Name   string          `json:"name"`
+		Schema json.RawMessage `json:"schema"`
+	} `json:"typeSchemas"`
+}
+
 type inferArgs struct {
 	Type json.RawMessage `json:"type"`
-	Opts struct {
-		Ignore      bool `json:"ignore"`
-		TypeSchemas []struct {
-			Name   string          `json:"name"`
-			Schema json.RawMessage `json:"schema"`
-		} `json:"typeSchemas"`
-	} `json:"opts"`
-	Seed int64 `json:"seed"`
-	N    int   `json:"n"`
+	Opts inferOpts       `json:"opts"`
+	Seed int64           `json:"seed"`
+	N    int             `json:"n"`
+	// Pre: calls of ForType made earlier in the same process (history): For must be a function of its own arguments only.
+	Pre []struct {
+		Type json.RawMessage `json:"type"`
+		Opts inferOpts       `json:"opts"`
+	} `json:"pre"`
+}
+
+// runPre performs the earlier calls of the history and discards their results.
+func (a *inferArgs) runPre() {
+	for _, p := range a.Pre {
+		t, err := buildType(p.Type)
+		if err != nil {
+			continue
+		}
+		pa := inferArgs{Opts: p.Opts}
+		o, err := pa.forOptions()
+		if err != nil {
+			continue
+		}
+		func() {
+			defer func() { recover() }()
+			jsonschema.ForType(t, o)
+		}()
+	}
+}
+
+// restKeys: of the keys encoding/json emits for a fully populated struct value, those that are NOT promoted through an embedded
+// field whose type has a TypeSchemas override (For replaces exactly those by the override's properties; every other field must stay).
+func restKeys(t reflect.Type, over map[reflect.Type]*jsonschema.Schema, full []string) []string {
+	keep := map[string]bool{}
+	for _, f := range reflect.VisibleFields(t) {
+		if f.Anonymous || !f.IsExported() {
+			continue
+		}
+		under := false
+		for n := 1; n < len(f.Index); n++ {
+			af := t.FieldByIndex(f.Index[:n])
+			if af.Anonymous && over[af.Type] != nil {
+				under = true
+			}
+		}
+		if under {
+			continue
+		}
+		name := f.Name
+		if tag, ok := f.Tag.Lookup("json"); ok {
+			if tag == "-" {
+				continue
+			}
+			if i := bytes.IndexByte([]byte(tag), ','); i >= 0 {
+				tag = tag[:i]
+			}
+			if tag != "" {
+				name = tag
+			}
+		}
+		keep[name] = true
+	}
+	out := []string{}
+	for _, k := range full {
+		if keep[k] {
+			out = append(out, k)
+		}
+	}
+	return out
 }
 
 func (a *inferArgs) forOptions() (*jsonschema.ForOptions, error) {
@@ -118,7 +185,18 @@ func init() {
 			return nil, err
 		}
 		res := map[string]any{"features": features(t), "gotype": t.String()}
+		// history: the same call with plain options before and after the call under test (and after any Pre calls)
+		plain := &jsonschema.ForOptions{IgnoreInvalidTypes: a.Opts.Ignore}
+		var pb0 []byte
+		if sp0, err := jsonschema.ForType(t, plain); err == nil && sp0 != nil {
+			pb0, _ = json.Marshal(sp0)
+		}
+		a.runPre()
 		s1, err := jsonschema.ForType(t, opts)
+		if sp1, err1 := jsonschema.ForType(t, plain); err1 == nil && sp1 != nil && pb0 != nil {
+			pb1, _ := json.Marshal(sp1)
+			res["history_free"] = bytes.Equal(pb0, pb1)
+		}
 		if err != nil {
 			res["outcome"] = "error"
 			res["detail"] = err.Error()
@@ -154,7 +232,7 @@ func init() {
 			res["resolve_detail"] = rerr.Error()
 		}
 		// the fields encoding/json emits
-		if tt := t; tt.Kind() == reflect.Struct && len(opts.TypeSchemas) == 0 {
+		if tt := t; tt.Kind() == reflect.Struct {
 			rng := rand.New(rand.NewSource(1))
 			full := reflect.New(tt).Elem()
 			genValue(full, rng, 2, 0)
@@ -166,7 +244,11 @@ func init() {
 			genValue(zero, rng, 0, 0)
 			zb, zerr := json.Marshal(zero.Interface())
 			if ferr == nil && zerr == nil {
-				res["full_keys"] = objectKeys(fb)
+				if len(opts.TypeSchemas) == 0 {
+					res["full_keys"] = objectKeys(fb)
+				} else if opts.TypeSchemas[tt] == nil {
+					res["rest_keys"] = restKeys(tt, opts.TypeSchemas, objectKeys(fb))
+				}
 				res["zero_keys"] = objectKeys(zb)
 				props := []string{}
 				for k := range s1.Properties {
@@ -196,6 +278,7 @@ func init() {
 			return nil, err
 		}
 		res := map[string]any{"features": features(t), "gotype": t.String()}
+		a.runPre()
 		s, err := jsonschema.ForType(t, opts)
 		if err != nil || s == nil {
 			res["outcome"] = "error"
@@ -243,6 +326,7 @@ func init() {
 			return nil, err
 		}
 		res := map[string]any{"features": features(t), "gotype": t.String()}
+		a.runPre()
 		s, err := jsonschema.ForType(t, nil)
 		if err != nil || s == nil {
 			res["outcome"] = "error"
@@ -305,7 +389,15 @@ func init() {
 	})
 }
 
+var fillDepth int
+
 func fillNonZero(v reflect.Value) {
+	// recursive declared types (reachable below a json:"-" field although ForType succeeds) must not recurse for ever
+	fillDepth++
+	defer func() { fillDepth-- }()
+	if fillDepth > 24 {
+		return
+	}
 	switch v.Kind() {
 	case reflect.Struct:
 		for i := 0; i < v.NumField(); i++ {
@@ -352,6 +444,8 @@ func fillNonZero(v reflect.Value) {
 			p := reflect.New(v.Type().Elem())
 			fillNonZero(p.Elem())
 			v.Set(p)
+		} else {
+			fillNonZero(v.Elem()) // e.g. the fields promoted through an embedded pointer
 		}
 	case reflect.Interface:
 		if v.IsNil() && v.NumMethod() == 0 {
@@ -379,6 +473,17 @@ func mutations(v any) []any {
 				out = append(out, rebuild(x))
 			}
 			for _, x := range []string{"9223372036854775807", "-9223372036854775808"} { // inside int64: the range every 64-bit kind shares on its own side
+				out = append(out, rebuild(json.Number(x)))
+			}
+			// numbers that are not integers although a float64 (or a lossy conversion) would round them to one
+			base := "7"
+			if jn, ok := c.(json.Number); ok {
+				if _, err := jn.Int64(); err == nil {
+					base = jn.String()
+				}
+			}
+			for _, x := range []string{base + ".00000000000000000001", base + ".5", "255.00000000000000001", "2147483647.00000001",
+				"0.000000000000000000000000000001", "1e-400", "-0.00000000000000000001", "127.0000000000000000000000000000001"} {
 				out = append(out, rebuild(json.Number(x)))
 			}
 		case []any:
